@@ -53,6 +53,8 @@ Definition o_concat (n : nat) (ss : list (list qrow)) obs : bool := obs_is (conc
 Definition o_normtime (s : list qrow) (tss : list (list (option Z))) obs : bool :=
   if forallb times_ok tss && Nat.eqb (length s) (length tss) && has_time tss then obs_is (normalize_time s tss) obs else true.
 Definition o_setdepth (d : nat) (s : list qrow) obs : bool := obs_is (set_depth d s) obs.
+(* a column created with defaultnan=False: the depth setter fills new cells with `pad` (0) *)
+Definition o_setdepth_pad (pad : option Q) (d : nat) (s : list qrow) obs : bool := obs_is (set_depth_pad pad d s) obs.
 Definition o_downsample (by_ : nat) (s : list qrow) obs : bool :=
   match by_ with O => true | _ => obs_is (downsample by_ s) obs end.
 Definition o_interpolate (s : list qrow) obs : bool := obs_is (interpolate s) obs.
